@@ -149,6 +149,7 @@ class Plan:
                     self.asked.add((j, tuple(0.0 if i == j else (-coefs[i] / coefs[j]) + 0.0 for i in range(self.k)),
                                     (-c0 / coefs[j]) + 0.0))
                     return False
+                return abs(c0) <= 1e-13  # the parameters cancel: a comparison between constants
         raise BranchOnSymbol(f"{kind} on a non-affine symbolic value")
 
 
@@ -511,10 +512,10 @@ class Shapes:
         ps = []
         for p in g.parameters:
             a = np.asarray(p)
-            if a.ndim == 0:
-                ps.append(round(float(a.real), 9) + 0.0)
+            if a.ndim == 0:  # exact value: both sides are produced by the same deterministic code
+                ps.append((float(a.real) + 0.0).hex())
             else:
-                ps.append(np.round(a.astype(complex), 7).tobytes())
+                ps.append((a.astype(complex) + 0.0).tobytes())
         return (g.__class__.__name__, tuple(ps))
 
     def tag(self, g):
@@ -813,6 +814,8 @@ def search_one(ctx, build, code, sname, ns, must=None, tol=1e-7):
     except Exception as e:
         if must:
             key = f"raises:{name}:{sname}"
+            if name == "Unitary" and len(g.qubits) == 2:
+                key = f"kak:raises:{type(e).__name__}"
             ctx.fail(key, f"translate_gate({code}, {flag_names(ns)}) raises {type(e).__name__}: {e} but the class is in the translation tables of this native set",
                      py + "out = translate_gate(g, ns)\n", observed=f"{type(e).__name__}: {e}", broken=[f"C10_search_{sname}"])
             return key, f"{type(e).__name__}"
@@ -951,7 +954,7 @@ def unitary_search(ctx):
         except Exception as e:
             ok, shape, err = False, True, e
         if not ok or not shape:
-            ctx.fail(f"kak:{label.rstrip('0123456789')}", f"two_qubit_decomposition of the unitary '{label}' on qubits {q} " + (f"raises {type(err).__name__}: {err}" if err else "is not the unitary up to a phase"),
+            ctx.fail(f"kak:raises:{type(err).__name__}" if err else f"kak:operator:{label.rstrip('0123456789')}", f"two_qubit_decomposition of the unitary '{label}' on qubits {q} " + (f"raises {type(err).__name__}: {err}" if err else "is not the unitary up to a phase"),
                      REPLAY_PRE + f"from qibo.transpiler.unitary_decompositions import two_qubit_decomposition\nM = {Mc}\n"
                      f"gl = two_qubit_decomposition({q[0]}, {q[1]}, M.astype(complex), backend=nb)\n"
                      f"assert phase_equal(full(gl, {n}), full([gates.Unitary(M, *{list(q)})], {n}), 1e-6)\n",
